@@ -35,31 +35,42 @@ META = {
 # ---------------------------------------------------------------------------------------------------------
 # running the real loop
 
+CPU_LIMIT = 10     # seconds of processor time for one session (a normal one needs 0.1 - 0.5 s); independent of the machine's load
+
+
 def _setarch():
-    """Address-space randomisation off: a fault of the loop then depends on the input only, not on the run."""
+    """Prefix of the loop's command line: address-space randomisation off (a fault of the loop then depends on the input
+    only, not on the run) and a processor-time limit (a loop that spins is ended after CPU_LIMIT seconds of its own time)."""
+    prefix = []
+    exe = shutil.which("prlimit")
+    if exe:
+        rc, _, _, _ = vlib.run([exe, "--cpu=%d" % CPU_LIMIT, "true"], timeout=20)
+        if rc == 0:
+            prefix += [exe, "--cpu=%d" % CPU_LIMIT]
     exe = shutil.which("setarch")
     if exe:
         rc, _, _, _ = vlib.run([exe, "x86_64", "-R", "true"], timeout=20)
         if rc == 0:
-            return [exe, "x86_64", "-R"]
-    return []
+            prefix += [exe, "x86_64", "-R"]
+    return prefix
 
 
-def run_loop(build, text, cwd, prefix, timeout=40, args=()):
+def run_loop(build, text, cwd, prefix, timeout=150, args=()):
     cmd = prefix + [build["aldor"]] + vlib.ALDOR_BASE_ARGS + list(args) + ["-Gloop"]
     rc, out, err, to = vlib.run(cmd, cwd=cwd, timeout=timeout, stdin=text.encode())
     out = out.decode(errors="replace")
-    # a confirmation dialogue ("Redefine? (y/n): ") at the end of the input never ends: no need to wait longer
-    return {"rc": rc, "out": out[-200000:], "err": err.decode(errors="replace")[-20000:], "timeout": to,
-            "dialogue": to and "(y/n)" in out[-4000:]}
+    # SIGKILL / SIGXCPU without a wall-clock timeout: the processor-time limit was reached (e.g. the confirmation dialogue
+    # "Redefine? (y/n): " at the end of the input never ends)
+    spun = (not to) and rc in (-9, -24) and any("prlimit" in x for x in prefix)
+    return {"rc": rc, "out": out[-200000:], "err": err.decode(errors="replace")[-20000:], "timeout": to, "spun": spun}
 
 
 def judge(h, res):
     """Compare one run of the loop with the session Repl.tla computed for history h.  None = conforms."""
     toks, flags = replhist.loop_tokens(res["out"])
     exp = replhist.expected_tokens(h["hist"], h["out"], with_timing=flags["timing"])
-    if res["timeout"]:
-        return ("loop-hang", "no end of session within the time bound", toks, exp)
+    if res["timeout"] or res.get("spun"):
+        return ("loop-hang", "no end of session within the time bound (%s)" % ("processor time" if res.get("spun") else "wall clock"), toks, exp)
     if flags["fault"] or (res["rc"] is not None and res["rc"] < 0) or not flags["ready"]:
         return ("loop-fault", "the loop faulted (rc=%s)" % res["rc"], toks, exp)
     if flags["bad"]:
@@ -217,8 +228,8 @@ def run_family(chk, b, wd, prefix, name, progs, batch_exp, verbose_every, layout
         text, steps, ends = replhist.render_history(p, h["hist"], verbose=verbose, layout=layout)
         res = run_loop(b, text, dd, prefix)
         v = judge(h, res)
-        if v is not None and v[0] == "loop-hang" and not res["dialogue"]:
-            res = run_loop(b, text, dd, prefix, timeout=200)      # a loaded machine is not a hang
+        if v is not None and v[0] == "loop-hang" and not res["spun"]:
+            res = run_loop(b, text, dd, prefix, timeout=400)      # a loaded machine is not a hang
             v = judge(h, res)
         res["text"] = text
         res["ends"] = ends
@@ -336,7 +347,7 @@ def run(chk, tier):
         groups = [(8, 6, 1, None, ()), (2, 5, 2, 3, ("syntax", "shadow"))]
         vev, layouts = 5, mixed
     else:
-        groups = [(110, 8, 1, None, ()), (20, 6, 2, 5, ("syntax", "shadow"))]
+        groups = [(110, 8, 1, None, ()), (20, 6, 2, 5, ("syntax", "shadow")), (2, 3, 2, None, ())]
         vev, layouts = 4, ["line", "braces", "piled", "paren", "line"]
     progs, batch_exp, stats = select_programs(chk, seed, groups, rng)
     mark("select")
@@ -346,7 +357,8 @@ def run(chk, tier):
     fixed_histories(chk, b, wd, prefix, per_route)
     chk.extra["candidate_programs_by_status"] = stats
     chk.extra["routes"] = per_route
-    chk.extra["aslr_off"] = bool(prefix)
+    chk.extra["aslr_off"] = "setarch" in " ".join(prefix)
+    chk.extra["cpu_limit_s"] = CPU_LIMIT if "prlimit" in " ".join(prefix) else None
     chk.extra.setdefault("scan_drift", [])
     chk.rule = ("programs of gen/progen.py with few top-level forms (definitions, assignments, loops, output statements), each evaluated "
                 "by TLC; for each, TLC (Repl.tla) enumerates every interleaving of its forms in order with <= maxbad erroneous forms "
@@ -363,5 +375,35 @@ def run(chk, tier):
 
 
 SELFTEST_NOTES = """
-(to be filled in)
+Binding demonstration (2026-10-04, quick tier, VERIF_SEED default, scratch worktrees /tmp/wt-c13m* of /repo, removed afterwards;
+the machine was shared with ~10 other builders, load average 150-200, so wall times are 2-4x the idle ones).
+
+Unchanged tree: `bin/verif check C13 --tier quick` exit 0 with VERIF_SEED = default, 7, 4242 (KNOWN-FINDING lines only).
+
+Mutations (one line each, all compile), all reported VIOLATION:
+  M1 scobind.c  scobindRestore: `if (scoUndoState) scobindUndo();` -> `if (0 && ...)` (no roll-back after a rejected step)
+       34 violations: wrong-output / accept-reject in histories where an ill-typed definition of a program name precedes
+       the program's own definition (shape bad:vartype+shadow), e.g. history b2o1o2o3o4b1o5.
+  M2 axlcomp.c  compGLoopEval: the per-step `comsgFini(); comsgInit();` removed (error count not reset between steps)
+       893 violations (every history with a rejected form: all later forms are skipped, or the loop faults).
+  M3 scan.c     scanIsContinued: `case ')':` removed (a closing parenthesis no longer ends a continuation)
+       893 violations (loop-fault / accept-reject: forms are glued together); additionally recorded as scan_drift by
+       ReplLinesCode.cfg (record `stmt`, line 1): the transcription of scanIsContinued and the code disagree.
+  M4 fint.c     shDataObjAdd: globals of the loop's unit (id "-_...") are not looked up in earlier steps
+       789 violations (values defined in one step are not seen by the next: wrong-output / loop-fault).
+  M5 scobind.c  scobindSave: scope information is freed after every step instead of being kept for the loop
+       190 violations.
+Corrupted field: VERIF_C13_CORRUPT=1 changes one output atom of one exported history (sign flipped, a digit appended):
+  exactly that history is rejected (`wrong-output on loop verbose: program r8089264_13 history o1b1o2o3o4`), exit 1.
+Candidate repairs (hooks/fix-C13-undo-step.diff, fix-C13-undo-no-free.diff, fix-C13-echo-wrap-error.diff applied together in a
+  worktree): the quick tier then reports 3 violations, all of shape redeclares-defined-name (the second meaning of a re-declared
+  variable still leaks: `There are 2 meanings for the operator`), no fault, no hang; the fixed session echo-without-stdout passes.
+Not a finding (harness corrected instead): (1) a program form entered early that *assigns* the missing name is accepted by the
+  compiler (assignment declares) -> such forms are no longer offered as erroneous (field `must`); (2) a read inside a macro argument
+  may vanish with the expansion -> not counted in `must`; (3) the messages of one step are numbered, not ordered, by number ->
+  rejected steps are counted by messages numbered 1; (4) an ill-typed re-definition of a function the session already has is
+  answered by the dialogue `Redefine? (y/n)` (fintYesOrNo), not by a rejection -> not offered (Repl.tla Offered); at end of input
+  that dialogue loops forever (getchar() == EOF is not handled) -- outside this property, not recorded.
+TLC -coverage cannot be used with Repl.tla (the cost-model construction does not terminate on AldorSem's nested operators);
+  non-vacuity is shown by the exported history items per kind (evidence: history_items).
 """
